@@ -1135,3 +1135,306 @@ Proof.
       apply andb_true_iff in W as [_ Nd].
       now rewrite (construct_ft f types Hin Tf Nd).
 Qed.
+
+(* ------------------------------------------------------------------ fpm.toml = --config, partially *)
+Lemma construct_defaults : construct [] = Ok post_defaults.
+Proof. vm_compute. reflexivity. Qed.
+
+Lemma run_markdown_empty : run_markdown [] = Ok (post_defaults, []).
+Proof. vm_compute. reflexivity. Qed.
+
+(* for an option outside config_sensitive, __post_init__ neither changes nor reads the value *)
+Definition safe_ok (f : field) : Prop :=
+  sin (f_name f) config_sensitive = false ->
+  forall v, wt_value (f_name f) (f_ty f) v = true -> is_one v = false ->
+  construct [(f_name f, enc_toml v)] = Ok (sset (f_name f) (enc_toml v) post_defaults).
+
+Lemma safe_ok_all : Forall safe_ok project_schema.
+Proof.
+  unfold project_schema.
+  repeat (apply Forall_cons;
+          [unfold safe_ok; cbn [f_name f_ty]; intros S v W O;
+           first [ vm_compute in S; discriminate S
+                 | destruct v; try discriminate O; try discriminate W;
+                   cbn [enc_toml]; vm_compute; reflexivity ]|]).
+  apply Forall_nil.
+Qed.
+
+Theorem toml_config_agree_safe i k v :
+  wt_option (k, v) = true -> config_safe [(k, v)] = true ->
+  effective_toml i [(k, v)] = effective_config i [(k, v)].
+Proof.
+  intros W C. unfold config_safe in C. cbn [forallb fst snd] in C.
+  rewrite andb_true_r in C. apply andb_true_iff in C as [C1 C2]. apply negb_true_iff in C1, C2.
+  unfold wt_option in W. cbn [fst snd] in W.
+  destruct (find_field project_schema k) as [f|] eqn:F; [|discriminate].
+  destruct (find_field_name _ _ _ F) as [E Hin]. subst k.
+  pose proof safe_ok_all as A. rewrite Forall_forall in A. specialize (A f Hin C1 v W C2).
+  unfold effective_toml, effective_config, effective. cbn [i_lines i_toml i_cfg i_cli load_settings].
+  unfold run_toml, enc_toml_all. cbn [map fst snd]. rewrite A, run_markdown_empty. reflexivity.
+Qed.
+
+(* the three formats, for one option *)
+Definition formats_agree_statement : Prop :=
+  forall i k v, wt_option (k, v) = true ->
+    effective_md i [(k, v)] = effective_toml i [(k, v)] /\
+    effective_toml i [(k, v)] = effective_config i [(k, v)].
+
+Theorem formats_agree_partial i k v :
+  wt_option (k, v) = true -> config_safe [(k, v)] = true ->
+  effective_md i [(k, v)] = effective_toml i [(k, v)] /\
+  effective_toml i [(k, v)] = effective_config i [(k, v)].
+Proof. intros W C. split; [now apply md_toml_agree_single|now apply toml_config_agree_safe]. Qed.
+
+Definition demo_input : input :=
+  mkinput [] None None [] (s "/work/elsewhere") (s "../proj") (s "/opt/ford").
+
+Example formats_agree_nonvacuous :
+  wt_option (s "exclude_dir", VList [s "build"; s "../vendor/lib"]) = true /\
+  config_safe [(s "max_frontpage_items", VInt 4)] = true /\
+  wt_option (s "alias", VDict [(s "a", s "b c"); (s "url", s "https://x.org/?q=1")]) = true /\
+  wt_option (s "extra_filetypes", VFT [(s "cpp", s "//", None); (s "sh", s "#", Some (s "bash"))]) = true /\
+  exists st, effective_md demo_input [(s "summary", VStr [s "first"; s "second"])] = Ok (st, [])
+             /\ sget (s "summary") st = PStr (s "first" ++ nl ++ s "second")
+             /\ sget (s "src_dir") st = PList [PPath (s "/work/proj/src")].
+Proof. repeat split; try (vm_compute; reflexivity). eexists. repeat split; vm_compute; reflexivity. Qed.
+
+(* --config on a post-init-sensitive option: display is not lower-cased *)
+Theorem formats_agree_refuted : ~ formats_agree_statement.
+Proof.
+  intros H. destruct (H demo_input (s "display") (VList [s "Public"]) eq_refl) as [_ E].
+  vm_compute in E. discriminate E.
+Qed.
+
+(* --config with a bare string for a list option: one path per character *)
+Theorem config_scalar_list_refuted :
+  exists i k v st1 st2, wt_option (k, v) = true /\
+    effective_toml i [(k, v)] = Ok (st1, []) /\ effective_config i [(k, v)] = Ok (st2, []) /\
+    sget k st1 = PList [PPath (s "/work/proj/s1")] /\
+    sget k st2 = PList [PPath (s "/work/proj"); PPath (s "/"); PPath (s "/work/proj/s"); PPath (s "/work/proj/1")].
+Proof.
+  exists demo_input, (s "src_dir"), (VOne (s "./s1")). do 2 eexists.
+  repeat split; vm_compute; reflexivity.
+Qed.
+
+(* ------------------------------------------------------------------ precedence *)
+Lemma apply_cli_one st k v t v' :
+  field_ty k = Some t -> convert_setting t k v = Ok v' -> apply_cli st [(k, v)] = Ok (sset k v' st).
+Proof. intros T C. simpl. now rewrite T, C. Qed.
+
+(* command line over --config over file over default, field by field *)
+Theorem precedence st k t v v' c :
+  field_ty k = Some t -> convert_setting t k v = Ok v' -> aget k st <> None ->
+  (exists st', apply_cli (apply_config st [(k, c)]) [(k, v)] = Ok st' /\ sget k st' = v'
+               /\ forall k', k' <> k -> sget k' st' = sget k' st)
+  /\ apply_cli st [] = Ok st
+  /\ sget k (apply_config st [(k, c)]) = c
+  /\ apply_config st [] = st.
+Proof.
+  intros T C H. repeat split.
+  - exists (sset k v' (sset k c st)). split; [now apply (apply_cli_one _ k v t)|]. split.
+    + apply sget_sset_same. unfold apply_config, overlay. simpl.
+      clear -H. induction st as [|[k2 w] st IH]; simpl in *; [congruence|].
+      destruct (seqb k k2) eqn:E; simpl; [now rewrite seqb_refl|]. rewrite E. now apply IH.
+    + intros k' N. now rewrite !sget_sset_other.
+  - unfold apply_config, overlay. simpl. now apply sget_sset_same.
+Qed.
+
+Lemma defaults_as_map : defaults = map (fun f => (f_name f, f_default f)) project_schema.
+Proof. vm_compute. reflexivity. Qed.
+
+Theorem file_over_default k x : sin k schema_names = true -> sget k (overlay defaults [(k, x)]) = x.
+Proof.
+  intros H. unfold overlay. cbn [fold_left fst snd]. apply sget_sset_same.
+  rewrite defaults_as_map. unfold schema_names in H. revert H. generalize project_schema.
+  induction l as [|f sch IH]; cbn [map sin aget f_name]; [discriminate|].
+  cbn [fst]. destruct (seqb k (f_name f)); [discriminate|exact IH].
+Qed.
+
+Example precedence_example :
+  exists st w, effective (mkinput [s "output_dir: from_file"; s "graph: false"] None
+                           (Some [(s "output_dir", PStr (s "from_config")); (s "graph", PBool false)])
+                           [(s "output_dir", PStr (s "from_cli")); (s "graph", PBool true)]
+                           (s "/work/proj") (s "") (s "/opt/ford")) = Ok (st, w)
+    /\ sget (s "output_dir") st = PPath (s "/work/proj/from_cli") /\ sget (s "graph") st = PBool true.
+Proof. do 2 eexists. repeat split; vm_compute; reflexivity. Qed.
+
+(* ------------------------------------------------------------------ unknown keys *)
+Lemma convert_meta_unknown m u vs : field_ty u = None ->
+  convert_meta (m ++ [(u, vs)]) = do r <- convert_meta m; Ok (fst r, snd r ++ [u]).
+Proof.
+  intros U. induction m as [|[k ws] m IH]; simpl.
+  - now rewrite U.
+  - destruct (field_ty k) as [t|].
+    + destruct (convert_setting t k (PList (map PStr ws))); simpl; try reflexivity.
+      rewrite IH. destruct (convert_meta m) as [[a b]| |]; reflexivity.
+    + rewrite IH. destruct (convert_meta m) as [[a b]| |]; reflexivity.
+Qed.
+
+(* project file: an unknown key is reported and dropped, everything else is unchanged *)
+Theorem unknown_key_dropped lines lines' u vs st w :
+  field_ty u = None -> meta_preprocessor lines' = meta_preprocessor lines ++ [(u, vs)] ->
+  run_markdown lines = Ok (st, w) -> run_markdown lines' = Ok (st, w ++ [u]).
+Proof.
+  intros U M R. unfold run_markdown in *. rewrite M, (convert_meta_unknown _ u vs U).
+  destruct (convert_meta (meta_preprocessor lines)) as [[kv ws]| |]; simpl in *; try discriminate R.
+  destruct (existsb include_like kv); [discriminate R|].
+  destruct (construct kv); simpl in *; try discriminate R. now injection R as -> ->.
+Qed.
+
+Example unknown_key_example :
+  field_ty (s "foo") = None /\
+  meta_preprocessor [s "project: p"; s "foo: 1"] = meta_preprocessor [s "project: p"] ++ [(s "foo", [s "1"])] /\
+  exists st, run_markdown [s "project: p"] = Ok (st, []) /\ run_markdown [s "project: p"; s "foo: 1"] = Ok (st, [s "foo"]).
+Proof. repeat split. eexists. split; vm_compute; reflexivity. Qed.
+
+(* fpm.toml: an unknown key aborts with TypeError *)
+Theorem unknown_key_toml u X : find_field project_schema u = None ->
+  run_toml [(u, X)] = Err (s "TypeError") u true.
+Proof. intros U. unfold run_toml, construct. simpl. now rewrite U. Qed.
+
+(* --config: an unknown key leaves no trace at all (no report) *)
+Theorem unknown_key_config i u X : aget u post_defaults = None ->
+  i_lines i = [] -> i_toml i = None -> i_cfg i = Some [(u, X)] ->
+  effective i = effective (mkinput [] None (Some []) (i_cli i) (i_cwd i) (i_dir i) (i_ford i)).
+Proof.
+  intros U L T C. unfold effective. rewrite L, T, C. cbn [i_lines i_toml i_cfg i_cli load_settings].
+  rewrite run_markdown_empty. cbn [bind fst snd]. unfold apply_config, overlay. simpl.
+  assert (E : forall st, aget u st = None -> sset u X st = st).
+  { induction st as [|[k w] st IH]; simpl; [reflexivity|]. destruct (seqb u k); [discriminate|].
+    intros H. now rewrite IH. }
+  now rewrite (E _ U).
+Qed.
+
+Example unknown_key_examples :
+  find_field project_schema (s "foo") = None /\ aget (s "foo") post_defaults = None.
+Proof. split; vm_compute; reflexivity. Qed.
+
+(* ------------------------------------------------------------------ ill-typed values *)
+(* project file, bool option: rejected, the message names the option *)
+Theorem ill_typed_md_bool key (vals : list str) :
+  (match vals with [x] => negb (seqb (lower x) (s "true")) && negb (seqb (lower x) (s "false")) | [] => false | _ => true end) = true ->
+  convert_setting TBool key (PList (map PStr vals)) = Err (s "ValueError") key true.
+Proof.
+  destruct vals as [|x [|y l]]; intros H; [discriminate| |reflexivity].
+  apply andb_true_iff in H as [H1 H2]. apply negb_true_iff in H1, H2.
+  unfold convert_setting, convert_to_bool, str_to_bool. simpl. now rewrite H1, H2.
+Qed.
+
+(* project file, key/value option without its separator: rejected, the message names the option *)
+Theorem ill_typed_md_dict key sep x :
+  aget key option_separators = Some [sep] -> x <> [] -> existsb (Ascii.eqb sep) x = false ->
+  convert_setting TDictStr key (PList [PStr x]) = Err (s "RuntimeError") key true.
+Proof.
+  intros S N E. unfold convert_setting, convert_to_dict. simpl. destruct x as [|c x]; [congruence|].
+  simpl. rewrite S. simpl.
+  assert (Sp : forall y, existsb (Ascii.eqb sep) y = false -> split_once sep y = None).
+  { induction y as [|d y IH]; simpl; [reflexivity|]. intros H. apply orb_false_iff in H as [H1 H2].
+    rewrite Ascii.eqb_sym in H1. now rewrite H1, (IH H2). }
+  now rewrite (Sp _ E).
+Qed.
+
+Example ill_typed_md_examples :
+  convert_setting TBool (s "graph") (PList [PStr (s "maybe")]) = Err (s "ValueError") (s "graph") true /\
+  aget (s "alias") option_separators = Some [("=")%char].
+Proof. split; vm_compute; reflexivity. Qed.
+
+(* the full demand: whatever the format, a value that is not of the declared type is rejected with
+   a message naming the option *)
+Definition native (t : tyclass) (X : pv) : bool :=
+  match t, X with
+  | TBool, PBool _ | (TInt | TOptInt), PInt _ | (TStr | TOptStr | TPath | TOptPath), PStr _ => true
+  | (TListStr | TListPath | TListAny), PList _ | (TListStr | TListPath), PStr _ => true
+  | (TDictStr | TDictFT), PDict _ | TDictFT, PList _ => true
+  | _, _ => false
+  end.
+
+Definition ill_typed_toml_statement : Prop :=
+  forall k t X, field_ty k = Some t -> native t X = false ->
+    exists e, run_toml [(k, X)] = Err e k true.
+Definition ill_typed_config_statement : Prop :=
+  forall i k t X, field_ty k = Some t -> native t X = false -> i_cfg i = Some [(k, X)] ->
+    exists e, effective i = Err e k true.
+Definition ill_typed_md_statement : Prop :=
+  forall k t vals r, field_ty k = Some t -> convert_setting t k (PList (map PStr vals)) = r ->
+    match r with Err _ _ named => named = true | _ => True end.
+
+Theorem ill_typed_refuted_toml : ~ ill_typed_toml_statement.
+Proof.
+  intros H. destruct (H (s "max_frontpage_items") TInt (PStr (s "4")) eq_refl eq_refl) as [e E].
+  vm_compute in E. discriminate E.
+Qed.
+
+Theorem ill_typed_toml_witness :
+  exists st, run_toml [(s "max_frontpage_items", PStr (s "4"))] = Ok (st, [])
+             /\ sget (s "max_frontpage_items") st = PStr (s "4")
+  /\ exists st2, run_markdown [s "max_frontpage_items: 4"] = Ok (st2, [])
+             /\ sget (s "max_frontpage_items") st2 = PInt 4.
+Proof. eexists. split; [vm_compute; reflexivity|]. split; [vm_compute; reflexivity|]. eexists. split; vm_compute; reflexivity. Qed.
+
+Theorem ill_typed_refuted_config : ~ ill_typed_config_statement.
+Proof.
+  intros H.
+  destruct (H (mkinput [] None (Some [(s "graph", PStr (s "maybe"))]) [] (s "/work/proj") (s "") (s "/opt/ford"))
+              (s "graph") TBool (PStr (s "maybe")) eq_refl eq_refl eq_refl) as [e E].
+  vm_compute in E. discriminate E.
+Qed.
+
+Theorem ill_typed_refuted_md_int : ~ ill_typed_md_statement.
+Proof.
+  intros H.
+  specialize (H (s "max_frontpage_items") TInt [s "four"] _ eq_refl eq_refl). vm_compute in H. discriminate H.
+Qed.
+
+(* in general: any text that int() rejects gives an error that does not name the option *)
+Theorem md_int_error_unnamed key x : py_int x = None ->
+  convert_setting TInt key (PList [PStr x]) = Err (s "ValueError") key false.
+Proof. intros H. unfold convert_setting, convert_to_int. simpl. now rewrite H. Qed.
+
+(* ------------------------------------------------------------------ paths *)
+(* the working directory enters only through the project directory it designates *)
+Theorem paths_relative_to_project i i' :
+  i_lines i = i_lines i' -> i_toml i = i_toml i' -> i_cfg i = i_cfg i' -> i_cli i = i_cli i' ->
+  i_ford i = i_ford i' -> project_dir i = project_dir i' -> effective i = effective i'.
+Proof. intros H1 H2 H3 H4 H5 H6. apply effective_load_eq; auto. now rewrite H1, H2. Qed.
+
+Example paths_example :
+  project_dir (mkinput [] None None [] (s "/work/proj") (s "") (s "/opt/ford")) = s "/work/proj" /\
+  project_dir (mkinput [] None None [] (s "/work/a/b") (s "../../proj") (s "/opt/ford")) = s "/work/proj" /\
+  project_dir (mkinput [] None None [] (s "/") (s "/work/./proj/") (s "/opt/ford")) = s "/work/proj".
+Proof. repeat split; vm_compute; reflexivity. Qed.
+
+(* a relative path without ".." stays below the (normalised) project directory *)
+Lemma norm_comps_app a : forall b acc, norm_comps (a ++ b) acc = norm_comps b (rev (norm_comps a acc)).
+Proof.
+  induction a as [|c a IH]; intros b acc; simpl.
+  - now rewrite rev_involutive.
+  - destruct (seqb c [] || seqb c (s ".")); [apply IH|]. destruct (seqb c (s "..")); apply IH.
+Qed.
+
+Lemma norm_comps_nodotdot b : forall acc, existsb (fun c => seqb c (s "..")) b = false ->
+  exists tail, norm_comps b acc = rev acc ++ tail.
+Proof.
+  induction b as [|c b IH]; intros acc H; simpl.
+  - exists []. now rewrite app_nil_r.
+  - simpl in H. apply orb_false_iff in H as [H1 H2].
+    destruct (seqb c [] || seqb c (s ".")); [now apply IH|]. rewrite H1.
+    destruct (IH (c :: acc) H2) as (tail & E). exists (c :: tail). rewrite E. simpl. now rewrite <- app_assoc.
+Qed.
+
+Theorem paths_anchored base p c r :
+  p = c :: r -> Ascii.eqb c slash = false ->
+  existsb (fun x => seqb x (s "..")) (split_ch slash p) = false ->
+  exists tail, norm_path base p = render_path (norm_comps (split_ch slash base) [] ++ tail).
+Proof.
+  intros -> C H. unfold norm_path. rewrite C. rewrite norm_comps_app.
+  destruct (norm_comps_nodotdot _ (rev (norm_comps (split_ch slash base) [])) H) as (tail & E).
+  exists tail. now rewrite E, rev_involutive.
+Qed.
+
+Example paths_anchored_example :
+  norm_path (s "/work/proj") (s "./src//sub/") = s "/work/proj/src/sub" /\
+  norm_path (s "/work/proj") (s "../other") = s "/work/other" /\
+  norm_path (s "/work/proj") (s "/abs/x/../y") = s "/abs/y" /\
+  norm_path (s "/work/proj") [] = s "/work/proj".
+Proof. repeat split; vm_compute; reflexivity. Qed.
